@@ -31,11 +31,17 @@ func vfAtLoad(prop, part string) {
 		{Kind: "setother", Actor: 0, Target: 2, Mode: "JRWPA"}, {Kind: "setother", Actor: 0, Target: 3, Mode: "JRWPS"},
 		{Kind: "setpub", Actor: 0}, {Kind: "settags", Actor: 0}, {Kind: "setdefacs", Actor: 0}, {Kind: "delsub", Actor: 0, Target: 2},
 		{Kind: "deltopic", Actor: 0, Hard: true}, {Kind: "sub", Actor: 2, Mode: ""},
+		{Kind: "disconnect", Actor: 1}, // the connection which asked for the load goes away
 	}
 	nb := 0
 	vfAtLoadRun(r, &nb, shard, shards, "grp", len(menu), func(i int) string { return menu[i].String() }, func(i int) string { return menu[i].Kind },
 		func() (*vfTW, int) { return vfBuildTW(vfTWOpts{Users: 4, PreSub: []int{1, 2}, Admin: []int{1}}), 1 },
-		func(t *vfTW, i int) (string, *vfClient) { return t.aclRequest(menu[i]) })
+		func(t *vfTW, i int) (string, *vfClient) {
+			if menu[i].Kind == "disconnect" {
+				return "DISCONNECT", t.cl[menu[i].Actor]
+			}
+			return t.aclRequest(menu[i])
+		})
 	// the same on a p2p topic: u1's {sub} loads it, u0 (not attached) acts meanwhile
 	pmenu := []vfP2POp{{Kind: "setpriv", Actor: 0}, {Kind: "setself", Actor: 0, Mode: "JRW"}, {Kind: "unsub", Actor: 0},
 		{Kind: "setother", Actor: 0, Mode: "JRWA"}, {Kind: "deltopic", Actor: 0, Hard: true}, {Kind: "sub", Actor: 0, Mode: ""}}
@@ -90,6 +96,7 @@ func vfAtLoadRun(r *vfev.Report, nbp *int, shard, shards int, target string, nop
 			var subCode, opCode int
 			var diffs []string
 			var loaded, alive bool
+			stuck := ""
 			where := "after the load"
 			res := vsched.Run(vsched.Config{MaxSteps: 4000000}, func() {
 				t, loader := build()
@@ -118,8 +125,12 @@ func vfAtLoadRun(r *vfev.Report, nbp *int, shard, shards int, target string, nop
 					if n == k {
 						injected = true
 						where = fmt.Sprintf("at event %d (%s)", k, what)
-						opID = c.id()
-						c.Post(strings.Replace(req, "$ID", opID, 1))
+						if req == "DISCONNECT" {
+							c.Disconnect()
+						} else {
+							opID = c.id()
+							c.Post(strings.Replace(req, "$ID", opID, 1))
+						}
 						vsched.Quiesce()
 					}
 				}
@@ -138,7 +149,30 @@ func vfAtLoadRun(r *vfev.Report, nbp *int, shard, shards int, target string, nop
 				if k == 0 {
 					events = n
 				}
-				if !injected {
+				if req == "DISCONNECT" {
+					if !injected {
+						c.Disconnect()
+					}
+					vsched.Quiesce()
+					opCode = -1
+					if subCode == 0 {
+						subCode = -1 // the requester is gone: nobody is owed an answer
+					}
+					// C14: the terminated session ends up detached, its user's online count restored
+					if tp := vfTopic(t.grp); tp != nil {
+						for s2, pssd := range tp.sessions {
+							if s2 == c.sess {
+								stuck = fmt.Sprintf("the topic still lists the session (user %s)", t.uname(pssd.uid))
+							}
+						}
+						if pud, ok := tp.perUser[t.users[loader].uid]; ok && pud.online != 0 && stuck == "" {
+							stuck = fmt.Sprintf("the topic counts %d online sessions of the user", pud.online)
+						}
+					}
+					if c.sess != nil && c.sess.inflightReqs != nil && len(c.sess.inflightReqs.sem) != 0 {
+						stuck += " request slot still taken"
+					}
+				} else if !injected {
 					opCode, _ = c.Req(req)
 				} else {
 					vsched.Quiesce()
@@ -169,6 +203,9 @@ func vfAtLoadRun(r *vfev.Report, nbp *int, shard, shards int, target string, nop
 			if subCode == 0 {
 				r.Violation("C13:unanswered:at-load:sub", name+": the {sub} which loads the topic was never answered", det)
 			}
+			if stuck != "" {
+				r.Violation("C14:terminated-session-still-attached:during-load", name+": the connection was closed; afterwards "+stuck, det)
+			}
 			if opCode == 0 {
 				r.Violation("C13:unanswered:at-load:"+opKind(oi), name+": the request was never answered", det)
 			}
@@ -185,6 +222,7 @@ func vfAtLoadRun(r *vfev.Report, nbp *int, shard, shards int, target string, nop
 
 func TestVerifC08AtLoad(t *testing.T) { vfAtLoad("C08", "at-load") }
 func TestVerifC13AtLoad(t *testing.T) { vfAtLoad("C13", "at-load") }
+func TestVerifC14AtLoad(t *testing.T) { vfAtLoad("C14", "at-load") }
 
 // ---- the same enumeration around the unload and the deletion of a topic ------------------------------
 //
